@@ -13,7 +13,8 @@ runtime slots (`@0` = the runtime under test, `@1` = a freshly built twin).
     g <name> <pol> v <val> | g <name> <pol> fb <fb>      global (pol = r|n|u|p)
     gat <name> <area> <size> <byte> <bit> <ty>           global declared AT
     p <prog>                                 program instance
-    pv <prog> <var> <pol> v <val> | fb <fb> | ext
+    pv <prog> <var> <pol> v <val> | fb <fb> | ext | x <ty> <rpn>   (initialiser expression, reverse
+                                             Polish, comma separated: g:<global> l:<var> k:<int> + *)
     pat <prog> <var> <area> <size> <byte> <bit> <ty>
     ps <prog> <stmt>
     task <name> <interval> <single|-> <prio>
@@ -24,7 +25,9 @@ runtime slots (`@0` = the runtime under test, `@1` = a freshly built twin).
   operations (each answered by a dump line)
     @k build | copyin <j> | cycle <dt> | io <area> <size> <byte> <bit> <raw> | restart cold|warm |
        store <0|1> | save | load | envw <0|1> (store writable or not) | fault | wacc <name> <val> |
-       driver <ni> <nq> <nm> (size the images, register a field driver) | field <hex> (field input bytes)
+       driver <ni> <nq> <nm> (size the images, register a field driver) | field <hex> (field input bytes) |
+       sched <when>:<mode>,..  (tail through the resource thread; when = pre|idle|during; answered by
+                                `res= pending= loads= V ..`)
   values   n<ty>:<int>  s<ty>:<hex>  a<lo>_<hi>;..[v,..]  r{f=v,..}  ~  &
   targets  g:<name> | l:<name> | p:<prog>:<name>   then /m=<member> /f=<field> /i=<i>,<j>
 -/
@@ -203,6 +206,10 @@ def parseSStmt (ns : Names) : List String → Option (SStmt × Names)
     let (t, ns) ← parseTarget ns t
     let k ← k.toInt?
     return (.inc t k, ns)
+  | ["incu", t, k] => do
+    let (t, ns) ← parseTarget ns t
+    let k ← k.toInt?
+    return (.incu t k, ns)
   | ["tog", t] => do
     let (t, ns) ← parseTarget ns t
     return (.tog t, ns)
@@ -238,6 +245,25 @@ def parseStmt (ns : Names) : List String → Option (Stmt × Names)
   | ws => do
     let (s, ns) ← parseSStmt ns ws
     return (.simple s, ns)
+
+/-- Reverse Polish initialiser expression. -/
+def parseIExpr (ns : Names) (s : String) : Option (IExpr × Names) := do
+  let mut ns := ns
+  let mut stack : List IExpr := []
+  for tok in s.splitOn "," do
+    if tok = "+" || tok = "*" then
+      match stack with
+      | b :: a :: rest => stack := (if tok = "+" then IExpr.add a b else IExpr.mul a b) :: rest
+      | _ => failure
+    else
+      match tok.splitOn ":" with
+      | ["k", k] => let k ← k.toInt?; stack := .lit k :: stack
+      | ["g", n] => let (ns', i) := ns.intern n; ns := ns'; stack := .glob i :: stack
+      | ["l", n] => let (ns', i) := ns.intern n; ns := ns'; stack := .loc i :: stack
+      | _ => failure
+  match stack with
+  | [e] => return (e, ns)
+  | _ => failure
 
 def updFb (fbs : List FbDecl) (n : Nat) (f : FbDecl → FbDecl) : Option (List FbDecl) :=
   if fbs.any (·.fb.name == n) then some (fbs.map fun d => if d.fb.name == n then f d else d) else none
@@ -304,6 +330,10 @@ def descLine (d : Desc) (ws : List String) : Option Desc :=
         let (ns, f) := ns.intern f
         pure (VInit.fb f, ns)
       | ["ext"] => pure (VInit.ext, ns)
+      | ["x", ty, e] => do
+        let ty ← ty.toNat?
+        let (e, ns) ← parseIExpr ns e
+        pure (VInit.expr ty e, ns)
       | _ => none
     let ps ← updProg src.programs p fun d =>
       { d with vars := d.vars ++ [{ var := { name := v, retain := pol, init := init } }] }
@@ -377,7 +407,8 @@ def showVar (ns : Names) (s : Storage) : Val → String
   | .inst id => showInstance ns s id
   | v => showVal ns v
 
-def dump (ns : Names) (rt : Runtime) (res : Option Err) (disk : Disk := {}) (showDrv : Bool := false) : String :=
+/-- The `V` part of a dump. -/
+def dumpVars (ns : Names) (rt : Runtime) : String :=
   let s := rt.storage
   let globals := rt.globalsMeta.map fun m =>
     s!"{ns.show m.name}=" ++ (match s.getGlobal m.name with | some v => showVar ns s v | none => "?")
@@ -389,6 +420,10 @@ def dump (ns : Names) (rt : Runtime) (res : Option Err) (disk : Disk := {}) (sho
          | some d => joinWith " " (d.vars.map fun (n, v) => s!"{ns.show n}={showVar ns s v}")
          | none => "?"
        | _ => "?")
+  s!"V {joinWith " " globals} {joinWith " " progs}"
+
+def dump (ns : Names) (rt : Runtime) (res : Option Err) (disk : Disk := {}) (showDrv : Bool := false) : String :=
+  let s := rt.storage
   let acc := rt.access.map fun a =>
     s!"{ns.show a.name}=" ++ (match rt.storage.readByRef a.ref with | some v => showVar ns s v | none => "?")
   let ov := rt.taskState.map (fun t => toString t.overruns)
@@ -405,7 +440,7 @@ def dump (ns : Names) (rt : Runtime) (res : Option Err) (disk : Disk := {}) (sho
   s!"S={match disk.file with
         | some (e :: es) => joinWith "," ((e :: es).map fun (n, v) => s!"{ns.show n}={showVal ns v}")
         | _ => "-"} " ++
-  s!"V {joinWith " " globals} {joinWith " " progs}"
+  dumpVars ns rt
 
 /-! ### operations -/
 
@@ -422,6 +457,24 @@ def St.setSlot (st : St) (k : Nat) (rt : Runtime) : St :=
 
 def parseMode? : String → Option Mode
   | "cold" => some .cold | "warm" => some .warm | _ => none
+
+def parseWhen? : String → Option When
+  | "pre" => some .pre | "idle" => some .idle | "during" => some .during | _ => none
+
+def parseScript (s : String) : Option (List (When × Mode)) :=
+  (s.splitOn ",").mapM fun item =>
+    match item.splitOn ":" with
+    | [w, m] => do return (← parseWhen? w, ← parseMode? m)
+    | _ => none
+
+/-- The resource loop's restart step for every request the thread carries out: `restart(mode)`
+then `load_retain_store()`; an error ends the thread (`Faulted`). -/
+def runRestarts (disk : Disk) : Runtime → List Mode → Nat → Runtime × Nat × Option Err
+  | rt, [], n => (rt, n, none)
+  | rt, m :: rest, n =>
+    match restart m rt with
+    | .ok rt' => runRestarts disk (loadRetainStore rt' disk) rest (n + 1)
+    | .error e => (rt, n, some e)
 
 /-- Execute one operation on slot `k`. Returns the new state and the dump (or `bad-op`). -/
 def opLine (st : St) (k : Nat) (ws : List String) : St × String :=
@@ -493,6 +546,15 @@ def opLine (st : St) (k : Nat) (ws : List String) : St × String :=
       let rt := loadRetainStore rt st.disk
       (st.setSlot k rt, "m " ++ dump ns rt none st.disk)
     | none => bad
+  | ["sched", script] =>
+    match parseScript script, st.slot k with
+    | some script, some rt =>
+      -- the tail installs its own (gated) store on the same medium, no autosave
+      let rt := setRetainStore rt false
+      let (rt, loads, res) := runRestarts st.disk rt (schedExecuted script) 0
+      (st.setSlot k rt,
+       s!"m res={match res with | none => "ok" | some e => "e:" ++ showErr e} pending=- loads={loads} " ++ dumpVars ns rt)
+    | _, _ => bad
   | ["fault"] =>
     match st.slot k with
     | some rt =>
